@@ -234,6 +234,7 @@ func (r *request) handleErrorResult(raw *frame.RawFrame) (retried bool) {
 			retried = true
 		case RetrySame:
 			r.retryCount++
+			verifYield("retry.before-execute")
 			r.executeInternal(false)
 			retried = true
 		default:
